@@ -203,6 +203,17 @@ func Query(contractAddress []byte, bs *state.BlockState, cdb ChainAccessor, cont
 
 func CheckFeeDelegation(contractAddress []byte, bs *state.BlockState, bi *types.BlockHeaderInfo, cdb ChainAccessor,
 	contractState *statedb.ContractState, payload, txHash, sender, amount []byte) (err error) {
+	// The real CheckFeeDelegation (vm.go) starts with GetABI(contractState, bs), which reads the code of the
+	// recipient and fails with "cannot find contract" when there is none: a fee-delegation transaction is
+	// accepted only if its recipient is a contract. The stub keeps that precondition.
+	code, err := contractState.GetCode()
+	if err != nil {
+		return err
+	}
+	if len(code) == 0 {
+		return errors.New("cannot find contract")
+	}
+	// then the contract's own check_delegation function decides: scripted
 	var sc VerifScript
 	if json.Unmarshal(payload, &sc) == nil && sc.Err == "nofd" {
 		return errors.New("fee delegation is not allowed")
